@@ -86,10 +86,21 @@ def run_crate(crate, specs):
             cmd += ["--harness", f]
         shown = "cd kani/%s && CARGO_NET_OFFLINE=true %s" % (crate, " ".join(cmd))
         try:
-            p = subprocess.run(cmd, cwd=cdir, env=env, capture_output=True, text=True, timeout=spec.get("timeout", 1500))
-            o = p.stdout + "\n" + p.stderr
+            # own process group, so that a timeout also kills the cbmc / solver children (they would otherwise spin for hours)
+            pr = subprocess.Popen(cmd, cwd=cdir, env=env, stdout=subprocess.PIPE, stderr=subprocess.PIPE, text=True, start_new_session=True)
+            try:
+                so, se = pr.communicate(timeout=spec.get("timeout", 420))
+            except subprocess.TimeoutExpired:
+                import signal
+                try:
+                    os.killpg(pr.pid, signal.SIGKILL)
+                except ProcessLookupError:
+                    pass
+                pr.communicate()
+                raise
+            o = so + "\n" + se
         except subprocess.TimeoutExpired as e:
-            out.append({"crate": crate, "harness": "*", "kind": "complete", "status": "infra", "msg": "cargo kani timed out after %ds" % spec.get("timeout", 1500),
+            out.append({"crate": crate, "harness": "*", "kind": "complete", "status": "infra", "msg": "cargo kani timed out after %ds (a solver query that is fast on the unchanged tree did not finish)" % spec.get("timeout", 420),
                         "cmd": shown, "checks": 0, "failed_checks": 0, "wall_s": time.time() - t0})
             continue
         res = parse_output(o)
@@ -102,6 +113,7 @@ def run_crate(crate, specs):
             out.append({"crate": crate, "harness": "*", "kind": "complete", "status": "infra", "cmd": shown, "checks": 0, "failed_checks": 0, "wall_s": time.time() - t0,
                         "msg": "only %d harnesses ran, at least %d expected" % (len(res), spec["min_harnesses"])})
             continue
+        playbacks = 0
         for name, r in sorted(res.items()):
             short = name.split("::")[-1]
             kind = "bounded" if short.startswith("bounded_") else "complete"
@@ -111,11 +123,12 @@ def run_crate(crate, specs):
                     bound = txt
             ent = {"crate": crate, "harness": name, "kind": kind, "bound": bound, "cmd": shown, "checks": r["checks"], "failed_checks": r["failed_checks"],
                    "wall_s": r.get("time_s", 0.0), "status": r["status"], "msg": r.get("msg"), "failed_desc": r.get("failed_desc"), "output_tail": r["block"][-2500:]}
-            if r["status"] == "fail":
+            if r["status"] == "fail" and playbacks < 2:
+                playbacks += 1
                 # counterexample from the verifier (concrete playback), attached to the replay file
                 try:
                     pc = subprocess.run(["cargo", "kani", "--harness", name, "--exact", "-Z", "concrete-playback", "--concrete-playback=print", "--output-format", "terse"] + spec.get("args", []),
-                                        cwd=cdir, env=env, capture_output=True, text=True, timeout=spec.get("timeout", 1500))
+                                        cwd=cdir, env=env, capture_output=True, text=True, timeout=300)
                     mo = re.search(r"Concrete playback unit test.*?```(.*?)```", pc.stdout + pc.stderr, re.S)
                     if mo:
                         ent["cex"] = mo.group(1).strip()[:6000]
